@@ -1,4 +1,5 @@
 import RocflModel.Script
+import RocflModel.Commit
 /-
   Driver side of the physical-layer protocol: prints the model's install-phase scripts and runs the
   Lean trace monitors on observed traces.
@@ -91,6 +92,29 @@ def physStep (op : String) (a : List String) : String :=
         let objs := roots.filterMap (fun r => (decodeArg r).map splitPath)
         if !notInsideObject objs target then "ok nested" else "ok safe"
     | none => "bad-arg"
+  -- commit-fault <upgrade 0|1> <step label> <err|kill>: the model's verdict for a fault / kill at that step
+  | "script-commitfault", [up, label, mode] =>
+    let upgrade := up == "1"
+    let st? : Option Commit.Step := match label with
+      | "renameVersion" => some .renameVersion | "invTrunc" => some .invTrunc | "invChmod" => some .invChmod
+      | "invCopy" => some .invCopy | "sideTrunc" => some .sideTrunc | "sideChmod" => some .sideChmod
+      | "sideCopy" => some .sideCopy | "declCreate" => some .declCreate | "declWrite" => some .declWrite
+      | "declUnlink" => some .declUnlink | _ => none
+    let classify (s : Commit.ObjState) : String :=
+      if s == Commit.oldState then "old" else if s == Commit.newState upgrade then "new"
+      else if Commit.flaggedInvalid upgrade s then "invalid" else "silently-wrong"
+    match label, st? with
+    | "staging", _ => "ok old"
+    | "mkdirParent", _ => "ok old"
+    | "renameObject", _ => "ok old"
+    | "cleanup", _ => "ok new"
+    | _, some st =>
+      match (Commit.steps upgrade).findIdx? (· == st) with
+      | none => "ok not-a-step"
+      | some k =>
+        if mode == "kill" then "ok " ++ classify (Commit.execKill upgrade k)
+        else "ok " ++ classify (Commit.execFault upgrade (some k)).1
+    | _, none => "ok unmodelled"
   | _, _ => "bad-op"
 
 end Driver
